@@ -24,7 +24,12 @@ for name in names:
     sh('git -C /repo worktree add -q -f %s HEAD' % wt)
     out = tempfile.mkdtemp(prefix='seedrgo-')
     try:
-        rc, o = sh('git -C %s apply %s' % (wt, os.path.join(d, 'patch.diff')))
+        # --3way: a patch made against an earlier commit is merged through its pre-image blob instead of being
+        # placed by context alone (identical code in two functions once let a hunk land in the wrong one)
+        rc, o = sh('git -C %s apply --3way %s' % (wt, os.path.join(d, 'patch.diff')))
+        if rc:
+            sh('git -C %s reset -q --hard HEAD' % wt)
+            rc, o = sh('git -C %s apply %s' % (wt, os.path.join(d, 'patch.diff')))
         if rc:
             print(name, 'PATCH DOES NOT APPLY', flush=True)
             bad.append(name)
